@@ -120,6 +120,98 @@ fn iso_sd(d: SignedDuration, lower: bool, cls: &str) -> Value {
     }
 }
 
+// ---- ISO 8601 duration parser on grammar-generated texts --------------------------------------------
+/// [+-]P[nY][nM][nW][nD][T[nH][nM][nS]] with designators in either case and an optional
+/// fraction (. or ,) on the last time unit. The printer only writes a '-' sign, one case
+/// throughout, and a '.' fraction on seconds: other shapes are scope "beyond".
+fn gen_iso(rng: &mut Rng) -> (String, bool) {
+    let mut printable = true;
+    let mut s = String::new();
+    match rng.next() % 6 {
+        0 => s.push('-'),
+        1 => {
+            s.push('+');
+            printable = false;
+        }
+        _ => {}
+    }
+    let case = rng.next() % 4; // 0 upper, 1 lower, else upper with a few mixed
+    let mixed = case >= 2 && rng.chance(1, 4);
+    if mixed {
+        printable = false;
+    }
+    let des = |rng: &mut Rng, c: char| -> char {
+        if case == 1 || (mixed && rng.chance(1, 2)) { c.to_ascii_lowercase() } else { c }
+    };
+    s.push(des(rng, 'P'));
+    let lim: [i64; 7] = [19_998, 239_976, 1_043_497, 7_304_484, 175_307_616, 10_518_456_960, 631_107_417_600];
+    let val = |rng: &mut Rng, k: usize| -> i64 {
+        match rng.next() % 6 {
+            0 => rng.range(0, 9),
+            1 | 2 => rng.range(0, 500),
+            3 => rng.range(0, 100_000).min(lim[k]),
+            4 => lim[k] - rng.range(0, 2),
+            _ => lim[k] + rng.range(0, 2),
+        }
+    };
+    let date: Vec<usize> = (0..4).filter(|_| rng.chance(1, 3)).collect();
+    let mut time: Vec<usize> = (4..7).filter(|_| rng.chance(1, 2)).collect();
+    if date.is_empty() && time.is_empty() {
+        time.push(4 + (rng.next() % 3) as usize);
+    }
+    for &k in &date {
+        let v = val(rng, k);
+        printable &= v <= lim[k];
+        s.push_str(&v.to_string());
+        s.push(des(rng, ['Y', 'M', 'W', 'D'][k]));
+    }
+    if !time.is_empty() {
+        s.push(des(rng, 'T'));
+        let n = time.len();
+        for (i, &k) in time.iter().enumerate() {
+            let v = val(rng, k);
+            // only seconds can be printed beyond their limit (milliseconds and smaller fold into them)
+            printable &= v <= lim[k] || k == 6;
+            s.push_str(&v.to_string());
+            if i + 1 == n && rng.chance(1, 2) {
+                let nd = 1 + rng.next() % 9;
+                if rng.chance(1, 4) {
+                    s.push(',');
+                    printable = false;
+                } else {
+                    s.push('.');
+                }
+                if k != 6 {
+                    printable = false;
+                }
+                for _ in 0..nd {
+                    s.push((b'0' + (rng.next() % 10) as u8) as char);
+                }
+            }
+            s.push(des(rng, ['H', 'M', 'S'][k - 4]));
+        }
+    }
+    (s, printable)
+}
+
+fn iso_parse(text: &str, printable: bool) -> Value {
+    static PARSER: temporal::SpanParser = temporal::SpanParser::new();
+    let sp = guard(|| PARSER.parse_span(text));
+    let sd = guard(|| PARSER.parse_duration(text));
+    let (sst, sv) = match &sp {
+        Ok(Ok(p)) => ("ok", jspan(p)),
+        Ok(Err(_)) => ("err", jspan(&Span::new())),
+        Err(_) => ("panic", jspan(&Span::new())),
+    };
+    let (dst, dv) = match &sd {
+        Ok(Ok(p)) => ("ok", jsd(*p)),
+        Ok(Err(_)) => ("err", jsd(SignedDuration::ZERO)),
+        Err(_) => ("panic", jsd(SignedDuration::ZERO)),
+    };
+    let scope = if printable { "property" } else { "beyond" };
+    json!({"op":"iso_parse","cls":"grammar","scope":scope,"text":codes(text),"s":text,"span":{"st":sst,"p":sv},"sd":{"st":dst,"p":dv}})
+}
+
 // ---- friendly parser on grammar-generated texts ----------------------------------------------------
 const LABELS: [&[&str]; 10] = [
     &["nanoseconds", "nanosecond", "nanos", "nano", "nsecs", "nsec", "ns"],
@@ -203,6 +295,24 @@ fn gen_friendly(rng: &mut Rng) -> String {
     s
 }
 
+/// Whether some documented printer configuration can produce a text of this shape (labels,
+/// blanks, decimal point). Texts outside it are still validated, but a divergence there is
+/// reported as beyond the property (C15 speaks about printed texts), never as a violation.
+fn fr_printable_shape(text: &str) -> bool {
+    if text.contains('\t') || text.contains("  ") {
+        return false;
+    }
+    let b = text.as_bytes();
+    for i in 1..b.len().saturating_sub(1) {
+        if b[i] == b',' && b[i - 1].is_ascii_digit() && b[i + 1].is_ascii_digit() {
+            return false;
+        }
+    }
+    !text
+        .split(|c: char| !c.is_alphabetic())
+        .any(|t| matches!(t, "nanos" | "nano" | "micros" | "micro" | "usecs" | "usec" | "millis" | "milli"))
+}
+
 fn fr_parse(text: &str, cls: &str) -> Value {
     static PARSER: SpanParser = SpanParser::new();
     let sp = guard(|| PARSER.parse_span(text));
@@ -217,7 +327,8 @@ fn fr_parse(text: &str, cls: &str) -> Value {
         Ok(Err(_)) => ("err", jsd(SignedDuration::ZERO)),
         Err(_) => ("panic", jsd(SignedDuration::ZERO)),
     };
-    json!({"op":"fr_parse","cls":cls,"text":codes(text),"s":text,"span":{"st":sst,"p":sv},"sd":{"st":dst,"p":dv}})
+    let scope = if fr_printable_shape(text) { "property" } else { "beyond" };
+    json!({"op":"fr_parse","cls":cls,"scope":scope,"text":codes(text),"s":text,"span":{"st":sst,"p":sv},"sd":{"st":dst,"p":dv}})
 }
 
 pub fn run(a: &Args) {
@@ -302,6 +413,8 @@ pub fn run(a: &Args) {
     for _ in 0..(if a.quick() { 6000 } else { 200_000 }) {
         let t = gen_friendly(&mut rng);
         out.emit(fr_parse(&t, "grammar"));
+        let (t, printable) = gen_iso(&mut rng);
+        out.emit(iso_parse(&t, printable));
     }
     out.finish();
 }
